@@ -15,6 +15,12 @@ from pyvaporation import (  # noqa: E402
 KG = "kg/(m2*h*kPa)"
 
 
+def fresh(s):
+    """A new, non-interned string object equal to s.  Every string handed to the package (bases, units, equation and model
+    names) goes through this: code that compares strings with `is` instead of `==` works only for interned literals."""
+    return s if s is None else "".join(list(s))
+
+
 def component(spec):
     if "builtin" in spec:
         return getattr(Components, spec["builtin"])
@@ -23,7 +29,7 @@ def component(spec):
         name=spec["name"],
         molecular_weight=spec["mw"],
         vapour_pressure_constants=VaporPressureConstants(
-            a=spec["vp"]["a"], b=spec["vp"]["b"], c=spec["vp"]["c"], type=spec["vp"]["type"]),
+            a=spec["vp"]["a"], b=spec["vp"]["b"], c=spec["vp"]["c"], type=fresh(spec["vp"]["type"])),
         heat_capacity_constants=HeatCapacityConstants(*spec["cp"]),
         uniquac_constants=None if uq is None else UNIQUACConstants(
             r=uq["r"], q_geometric=uq["q"], q_interaction=uq.get("qi")),
@@ -53,11 +59,11 @@ def mixture(spec):
 
 
 def composition(p, basis):
-    return Composition(p=p, type=basis)
+    return Composition(p=p, type=fresh(basis))
 
 
 def permeance(value, units=KG):
-    return Permeance(value=value, units=units)
+    return Permeance(value=value, units=fresh(units))
 
 
 def membrane(spec, mix, path=None):
@@ -65,7 +71,7 @@ def membrane(spec, mix, path=None):
     for comp, key in ((mix.first_component, "e1"), (mix.second_component, "e2")):
         for i, e in enumerate(spec.get(key) or []):
             exps.append(IdealExperiment(name="%s-%d" % (key, i), temperature=e["T"], component=comp,
-                                        permeance=Permeance(value=e["value"], units=e.get("units", KG)),
+                                        permeance=Permeance(value=e["value"], units=fresh(e.get("units", KG))),
                                         activation_energy=e.get("Ea")))
     if spec.get("interleave"):  # experiments listed by temperature, not component by component
         exps.sort(key=lambda e: (e.temperature, e.name))
@@ -75,7 +81,7 @@ def membrane(spec, mix, path=None):
 def program(spec):
     if spec is None:
         return None
-    return TemperatureProgram(coefficients=list(spec["coefficients"]), type=spec["type"])
+    return TemperatureProgram(coefficients=list(spec["coefficients"]), type=fresh(spec["type"]))
 
 
 def conditions(spec):
@@ -83,7 +89,7 @@ def conditions(spec):
         membrane_area=spec["area"],
         initial_feed_temperature=spec["T"],
         initial_feed_amount=spec["amount"],
-        initial_feed_composition=Composition(p=spec["x"], type=spec["basis"]),
+        initial_feed_composition=Composition(p=spec["x"], type=fresh(spec["basis"])),
         permeate_temperature=spec.get("Tp"),
         permeate_pressure=spec.get("pp"),
         temperature_program=program(spec.get("program")),
